@@ -18,11 +18,12 @@ for id in "$@"; do
   demo=$(ls $src/demo/*.rs | head -1); name=$(basename $demo .rs)
   flags=""; [ -f $src/confirm.flags ] && flags=$(cat $src/confirm.flags)
   if [ "$pkg" = "polytune" ]; then tdir=tests; else tdir=crates/$pkg/tests; mkdir -p $tdir; fi
-  if grep -q "src/mpc.rs" $src/demo/run.sh 2>/dev/null; then
-    # demonstration is a #[cfg(test)] module inside the crate
-    cp $demo src/mpc/$name.rs; printf '#[cfg(test)]\nmod %s;\n' $name >> src/mpc.rs
-    runit() { nice cargo test --offline -p polytune --lib c10 -- --test-threads=2; }
-    cleanup() { rm -f src/mpc/$name.rs; git checkout -q -- src/mpc.rs; }
+  if [ -f $src/confirm.incrate ]; then
+    # demonstration is a #[cfg(test)] module inside the crate: "<parent file> <module dir> <test filter> [cargo flags]"
+    read parent mdir filter iflags < $src/confirm.incrate
+    mkdir -p $mdir; cp $demo $mdir/$name.rs; printf '\n#[cfg(test)]\nmod %s;\n' $name >> $parent
+    runit() { nice cargo test --offline $iflags -p polytune --lib $filter -- --test-threads=2; }
+    cleanup() { rm -f $mdir/$name.rs; git checkout -q -- $parent; }
   else
     cp $demo $tdir/$name.rs
     runit() { nice cargo test --offline $flags -p $pkg --test $name -- --test-threads=2; }
